@@ -997,6 +997,7 @@ func (vc *VC) siteCheck(act *Act, st *State, shape string, site ssa.Instruction,
 	for _, s := range sites {
 		vc.siteHits[s]++
 		env := vc.specEnv(act, st, act.entry, "site", nil)
+		env.before = site
 		for k := range args {
 			var t types.Type
 			if k < len(argTypes) {
